@@ -196,6 +196,52 @@ func c11Into(name string, init []byte, how int, in []byte) ([]byte, error) {
 	}
 }
 
+// c11Returned: the byte slices the identifier types hand out (ID, NwkID, Marshal*) are the caller's to
+// append to or overwrite; doing so must not change what the library answers next.
+func c11Returned(c *core.Ctx, r *core.RNG) {
+	nid := netIDFrom(r.U32() & 0xffffff)
+	if r.Chance(1, 2) {
+		nid = netIDFrom(uint32(r.Intn(2))<<21 | uint32(r.Intn(64))) // types 0/1: six-bit IDs
+	}
+	var da lorawan.DevAddr
+	r.Fill(da[:])
+	da.SetAddrPrefix(nid)
+	var e lorawan.EUI64
+	r.Fill(e[:])
+	calls := []struct {
+		name string
+		f    func() []byte
+	}{
+		{"NetID.ID", func() []byte { return nid.ID() }},
+		{"DevAddr.NwkID", func() []byte { return da.NwkID() }},
+		{"NetID.MarshalBinary", func() []byte { b, _ := nid.MarshalBinary(); return b }},
+		{"NetID.MarshalText", func() []byte { b, _ := nid.MarshalText(); return b }},
+		{"DevAddr.MarshalBinary", func() []byte { b, _ := da.MarshalBinary(); return b }},
+		{"DevAddr.MarshalText", func() []byte { b, _ := da.MarshalText(); return b }},
+		{"EUI64.MarshalBinary", func() []byte { b, _ := e.MarshalBinary(); return b }},
+		{"EUI64.MarshalText", func() []byte { b, _ := e.MarshalText(); return b }},
+	}
+	first := make([][]byte, len(calls))
+	for i, cl := range calls {
+		out := cl.f()
+		first[i] = append([]byte{}, out...)
+		for k := range out {
+			out[k] ^= 0x5a
+		}
+		_ = append(out, 0x5a, 0x5a, 0x5a)
+	}
+	c.Eval(int64(2 * len(calls)))
+	for i, cl := range calls {
+		if out := cl.f(); !bytes.Equal(out, first[i]) {
+			c.Violate("C11|returned-bytes-shared|"+cl.name, "%s returned %x; after the caller overwrote what it had been handed, it returns %x (NetID %x, DevAddr %x)", cl.name, first[i], out, nid[:], da[:])
+		}
+	}
+	if !da.IsNetID(nid) {
+		c.Violate("C11|returned-bytes-shared|IsNetID", "after the caller overwrote returned slices, %x is no longer a member of NetID %x", da[:], nid[:])
+	}
+	c.Shape("returned", nid.Type())
+}
+
 func c11Representations(c *core.Ctx, r *core.RNG, ic idCodec) {
 	b := r.Bytes(ic.size)
 	switch r.Intn(8) {
@@ -390,5 +436,8 @@ func runC11(c *core.Ctx) {
 		}
 		r := c.RNG("repr", i)
 		c11Representations(c, r, idCodecs[i%4])
+		if i%3 == 0 {
+			c11Returned(c, r)
+		}
 	}
 }
